@@ -16,8 +16,15 @@ import (
 // net/ntske every exported method of *Provider starts with <recv>.mu.Lock();
 // defer <recv>.mu.Unlock(); unexported methods (generateNext) are only called
 // from those or from the constructor NewProvider; and the fields keys,
-// currentID, generatedAt are touched nowhere else.  One case, one entry per
-// method / rule: [name ok].
+// currentID, generatedAt are touched nowhere else; the Provider's field mu (a
+// selector .mu on an expression of type Provider / *Provider - resolved from
+// receivers, parameters, local declarations, struct field types and constructor
+// calls of the package; an unresolvable one counts as the Provider's; a mu reached
+// through another type, e.g. the Fetcher's own lock, is not this property's
+// business) is mentioned only in those opening Lock / deferred Unlock pairs (so the
+// lock is never released and re-taken inside a critical section); no function
+// literal touches the state.
+// One case, one entry per method / rule: [name ok].
 func lockCheck() {
 	repo := os.Getenv("VERIF_REPO")
 	if repo == "" {
@@ -64,6 +71,141 @@ func lockCheck() {
 		}
 		return name, id.Name
 	}
+	// ---- a small syntactic type resolution: named types of the package only ----
+	typeName := func(t ast.Expr) string { // T, *T, pkg.T -> "T" / "pkg.T"; anything else ""
+		for {
+			switch x := t.(type) {
+			case *ast.StarExpr:
+				t = x.X
+				continue
+			case *ast.ParenExpr:
+				t = x.X
+				continue
+			case *ast.Ident:
+				return x.Name
+			case *ast.SelectorExpr:
+				if id, ok := x.X.(*ast.Ident); ok {
+					return id.Name + "." + x.Sel.Name
+				}
+			}
+			return ""
+		}
+	}
+	fieldType := map[string]map[string]string{} // struct type -> field -> type name
+	funcResult := map[string]string{}           // function -> type name of its first result
+	for _, p := range pkgs {
+		for _, f := range p.Files {
+			for _, d := range f.Decls {
+				switch x := d.(type) {
+				case *ast.GenDecl:
+					for _, sp := range x.Specs {
+						ts, ok := sp.(*ast.TypeSpec)
+						if !ok {
+							continue
+						}
+						st, ok := ts.Type.(*ast.StructType)
+						if !ok {
+							continue
+						}
+						m := map[string]string{}
+						for _, fl := range st.Fields.List {
+							for _, n := range fl.Names {
+								m[n.Name] = typeName(fl.Type)
+							}
+						}
+						fieldType[ts.Name.Name] = m
+					}
+				case *ast.FuncDecl:
+					if x.Recv == nil && x.Type.Results != nil && len(x.Type.Results.List) > 0 {
+						funcResult[x.Name.Name] = typeName(x.Type.Results.List[0].Type)
+					}
+				}
+			}
+		}
+	}
+	var typeOf func(env map[string]string, e ast.Expr) string
+	typeOf = func(env map[string]string, e ast.Expr) string {
+		switch x := e.(type) {
+		case *ast.Ident:
+			return env[x.Name]
+		case *ast.ParenExpr:
+			return typeOf(env, x.X)
+		case *ast.StarExpr:
+			return typeOf(env, x.X)
+		case *ast.UnaryExpr:
+			return typeOf(env, x.X)
+		case *ast.CompositeLit:
+			if x.Type != nil {
+				return typeName(x.Type)
+			}
+		case *ast.SelectorExpr:
+			if t := typeOf(env, x.X); t != "" {
+				return fieldType[t][x.Sel.Name]
+			}
+		case *ast.CallExpr:
+			if id, ok := x.Fun.(*ast.Ident); ok {
+				if id.Name == "new" && len(x.Args) == 1 {
+					return typeName(x.Args[0])
+				}
+				return funcResult[id.Name]
+			}
+		}
+		return ""
+	}
+	// the declared / inferred types of the identifiers of one function (flat: shadowing ignored)
+	envOf := func(fd *ast.FuncDecl) map[string]string {
+		env := map[string]string{}
+		addFields := func(fl *ast.FieldList) {
+			if fl == nil {
+				return
+			}
+			for _, f := range fl.List {
+				for _, n := range f.Names {
+					env[n.Name] = typeName(f.Type)
+				}
+			}
+		}
+		addFields(fd.Recv)
+		addFields(fd.Type.Params)
+		addFields(fd.Type.Results)
+		ast.Inspect(fd.Body, func(n ast.Node) bool {
+			switch x := n.(type) {
+			case *ast.FuncLit:
+				addFields(x.Type.Params)
+			case *ast.AssignStmt:
+				if x.Tok == token.DEFINE && len(x.Lhs) == len(x.Rhs) {
+					for i, l := range x.Lhs {
+						if id, ok := l.(*ast.Ident); ok {
+							if t := typeOf(env, x.Rhs[i]); t != "" {
+								env[id.Name] = t
+							}
+						}
+					}
+				}
+			case *ast.ValueSpec:
+				for i, n := range x.Names {
+					if x.Type != nil {
+						env[n.Name] = typeName(x.Type)
+					} else if i < len(x.Values) {
+						if t := typeOf(env, x.Values[i]); t != "" {
+							env[n.Name] = t
+						}
+					}
+				}
+			}
+			return true
+		})
+		return env
+	}
+	// is this selector the Provider's mutex?  (.mu through a Provider, or through something unresolvable)
+	isProviderMu := func(env map[string]string, se *ast.SelectorExpr) bool {
+		if se.Sel.Name != "mu" {
+			return false
+		}
+		t := typeOf(env, se.X)
+		return t == "Provider" || t == ""
+	}
+
 	locked := map[string]bool{}   // methods of Provider that take the lock first
 	unlocked := map[string]bool{} // the others
 	var funcs []*ast.FuncDecl
@@ -101,10 +243,13 @@ func lockCheck() {
 		res[m] = !ast.IsExported(m) // an exported method without the lock is a failure; unexported ones: see callers
 	}
 	fieldsOK := true
+	muRefs := 0        // every mention of the Provider's field mu, anywhere in the package
+	closuresOK := true // no function literal touches the provider's state or lock
 	for _, fd := range funcs {
 		_, rt := recvOf(fd)
 		inside := (rt == "Provider" && (locked[fd.Name.Name] || unlocked[fd.Name.Name])) || (fd.Recv == nil && fd.Name.Name == "NewProvider")
 		holdsLock := (rt == "Provider" && locked[fd.Name.Name]) || (fd.Recv == nil && fd.Name.Name == "NewProvider")
+		env := envOf(fd)
 		ast.Inspect(fd.Body, func(n ast.Node) bool {
 			switch x := n.(type) {
 			case *ast.SelectorExpr:
@@ -124,11 +269,35 @@ func lockCheck() {
 				if inside { // a goroutine started inside would outlive the critical section
 					fieldsOK = false
 				}
+			case *ast.FuncLit:
+				// a closure may run when the lock is no longer (or not yet) held
+				ast.Inspect(x.Body, func(m ast.Node) bool {
+					if se, ok := m.(*ast.SelectorExpr); ok {
+						switch se.Sel.Name {
+						case "keys", "currentID", "generatedAt":
+							closuresOK = false
+						}
+						if isProviderMu(env, se) {
+							closuresOK = false
+						}
+						if unlocked[se.Sel.Name] && !ast.IsExported(se.Sel.Name) {
+							closuresOK = false
+						}
+					}
+					return true
+				})
+			}
+			if se, ok := n.(*ast.SelectorExpr); ok && isProviderMu(env, se) {
+				muRefs++
 			}
 			return true
 		})
 	}
 	res["state-touched-only-by-Provider"] = fieldsOK
+	// the only lock operations are the Lock / deferred Unlock pair that opens each locked
+	// method: no Unlock/Lock in the middle of a critical section, no TryLock, no alias of mu
+	res["no-other-lock-operations"] = muRefs == 2*len(locked)
+	res["no-closures-over-state"] = closuresOK
 	names := make([]string, 0, len(res))
 	for n := range res {
 		names = append(names, n)
